@@ -16,6 +16,7 @@
   model, golang-set's internal locking, aliasing the syntactic facts cannot see.
 -/
 import Spg.Generated.Facts
+import SpgProofs.Lemmas.FactPreds
 namespace Spg.C14
 open Spg.Generated
 
@@ -95,61 +96,49 @@ theorem api_receivers_value :
       ("Tokens", "MakeIndices"), ("Tokens", "Kind"), ("Tokens", "Atoms"), ("Tokens", "Separators")].all
       fun m => Facts.receivers.contains (m.1, m.2, "value")) = true := by decide
 
-/-- The only pointer-receiver methods, all unexported. -/
-theorem pointer_receivers :
-    (Facts.receivers.filter fun r => r.2.2 == "pointer") =
-      [("CharRecipe", "buildCharacterList", "pointer"), ("WordList", "isAllCapitalizable", "pointer"),
-       ("WordList", "capitalizeRatio", "pointer")] := by decide
+/-- No exported method has a pointer receiver. -/
+theorem pointer_receivers : Facts.exportedPointerMethods = [] := by decide
 
-/-- Every assignment that could reach memory outliving a call. Why each is harmless:
-`p.Entropy`, `p.tokens`: `p` is the `&Password{}` allocated by that call. `r.requiredSets`,
-`r.allowedSet`, `req.s` in `buildCharacterList`: `r` is the pointer receiver — see
-`pointer_calls`: it is only ever the address of a value-receiver's own copy — and `req` points into
-the slice `make`d two lines earlier. `r.Length`/`r.Allow`/`r.Exclude` in `NewCharRecipe`: `r` is the
-`new(CharRecipe)` being constructed. No package-level variable, no captured variable, no
-parameter element is ever assigned. -/
-theorem shared_writes :
-    Facts.sharedWrites =
-      [("CharRecipe.Generate", "p.Entropy", "ptrfield"), ("CharRecipe.Generate", "p.tokens", "ptrfield"),
-       ("(*CharRecipe).buildCharacterList", "r.requiredSets", "recvfield"),
-       ("(*CharRecipe).buildCharacterList", "r.requiredSets", "recvfield"),
-       ("(*CharRecipe).buildCharacterList", "r.requiredSets", "recvfield"),
-       ("(*CharRecipe).buildCharacterList", "r.allowedSet", "recvfield"),
-       ("(*CharRecipe).buildCharacterList", "req.s", "ptrfield"),
-       ("(*CharRecipe).buildCharacterList", "r.allowedSet", "recvfield"),
-       ("NewCharRecipe", "r.Length", "ptrfield"), ("NewCharRecipe", "r.Allow", "ptrfield"),
-       ("NewCharRecipe", "r.Exclude", "ptrfield"),
-       ("WLRecipe.Generate", "p.tokens", "ptrfield"), ("WLRecipe.Generate", "p.Entropy", "ptrfield")] := by
-  decide
+/-- **Every assignment that could reach memory outliving a call is local** (`FactPreds.localWrite`):
+it goes through a pointer to an object created by that very call (`p := &Password{}`,
+`r := new(CharRecipe)`), or to a field of a pointer receiver (see `pointer_calls`), or into the
+slice `buildCharacterList` has itself just built. No package-level variable, no captured
+variable, no parameter element, no other path through a receiver is ever assigned. -/
+theorem shared_writes : FactPreds.writesAreLocal = true := by decide
 
 /-- No assignment to a package-level variable, a captured variable or through a parameter. -/
 theorem no_global_or_captured_writes :
     (Facts.sharedWrites.filter fun w => w.2.2 == "pkgvar" || w.2.2 == "captured" || w.2.2 == "paramelem") = [] := by
   decide
 
-/-- The writing pointer method `buildCharacterList` is only ever called on `r`, the caller's own
-value receiver — a private copy; `isAllCapitalizable` (read-only) on the shared list. -/
-theorem pointer_calls :
-    Facts.pointerMethodCalls =
-      [("CharRecipe.Generate", "value", "buildCharacterList", "r"),
-       ("CharRecipe.Entropy", "value", "buildCharacterList", "r"),
-       ("CharRecipe.Alphabet", "value", "buildCharacterList", "r"),
-       ("WLRecipe.Entropy", "value", "isAllCapitalizable", "r.list")] := by decide
+/-- A pointer-receiver method that writes its receiver (`buildCharacterList`) is only ever called
+on `self` from a value-receiver method — a private copy of the caller's struct; a method called on
+a shared object (`isAllCapitalizable` on the word list) does not write it. -/
+theorem pointer_calls : FactPreds.writersOnPrivateCopies = true := by decide
 
-/-- **All package-level state of the library**: the two shipped lists, the two exported budget
-variables (caller-owned configuration), the seven separator presets (closures over constant
-recipes) and the two read-only class tables. None is written after initialisation
-(`no_global_or_captured_writes`). A new package-level variable — a cache, a memo table, a
-`sync.Map`, a once-flag — is hidden state that could outlive a call or be shared between
-goroutines; it changes this regenerated list and breaks the obligation. -/
-theorem package_state :
-    Facts.packageVars =
-      [("AgileSyllables", "[]string"), ("AgileWords", "[]string"), ("MaxFailRate", "float64"),
-       ("MaxTrials", "int"), ("SFDigits1", "spg.SFFunction"), ("SFDigits2", "spg.SFFunction"),
-       ("SFDigitsNoAmbiguous1", "spg.SFFunction"), ("SFDigitsNoAmbiguous2", "spg.SFFunction"),
-       ("SFDigitsSymbols", "spg.SFFunction"), ("SFNone", "spg.SFFunction"), ("SFSymbols", "spg.SFFunction"),
-       ("charTypeByFlag", "map[spg.CTFlag]string"), ("charTypeNamesByFlag", "map[spg.CTFlag]string")] := by
-  decide
+/-- **All package-level state of the library** is plain data — the two shipped lists, the two
+exported budget variables (caller-owned configuration), the two class tables, none of them
+assigned after initialisation (`shared_writes`) — or one of the seven separator presets (closures
+over constant recipes). A cache, a memo table, a `sync.Map`, a once-flag, a shared scratch value is
+hidden state that could outlive a call or be shared between goroutines, and falsifies this. -/
+theorem package_state : FactPreds.packageStateOK = true := by decide
+
+/-- The predicates are not vacuous: the source has assignments of all three local kinds, calls of
+pointer methods, and package variables of both kinds. -/
+theorem facts_nonvacuous :
+    (Facts.sharedWrites.any fun w => w.2.2 == "freshfield") = true ∧
+    (Facts.sharedWrites.any fun w => w.2.2 == "recvfield") = true ∧
+    (Facts.sharedWrites.any fun w => w.2.2 == "recvdeep") = true ∧
+    Facts.pointerMethodCalls ≠ [] ∧
+    (Facts.packageVarKinds.any fun v => v.2 == "opaque") = true := by decide
+
+/-- …and they reject what they should: a write to a package variable, to the caller's slice
+through the receiver, through an unknown pointer. -/
+example :
+    FactPreds.localWrite ("sfWrap", "MaxFailRate", "pkgvar") = false ∧
+    FactPreds.localWrite ("(*CharRecipe).buildCharacterList", "recv.RequireSets[]", "recvdeep") = false ∧
+    FactPreds.localWrite ("NewSFFunction", "prev", "captured") = false ∧
+    FactPreds.localWrite ("f", "q.x", "ptrfield") = false := by decide
 
 /-! ### Non-vacuity -/
 
